@@ -18,7 +18,7 @@ pub enum SR {
     List(Vec<(i64, u64, Vec<SR>)>, bool),
     Filter(u64, Vec<SR>),
     /// composite: all buckets in composite-key order; the page shows the first `size`
-    Comp { all: Vec<(Vec<i64>, u64, Vec<SR>)>, size: usize },
+    Comp { name: String, sources: Vec<CSrc>, all: Vec<(Vec<i64>, u64, Vec<SR>)>, size: usize },
 }
 
 #[derive(Clone, Copy, PartialEq, Debug)]
@@ -182,7 +182,7 @@ fn eval_one(n: &Node, docs: &[&MDoc], all_terms: &dyn Fn(Fd) -> Vec<i64>, sem: S
                 }
                 std::cmp::Ordering::Equal
             });
-            SR::Comp { all, size: *size as usize }
+            SR::Comp { name: n.name.clone(), sources: sources.clone(), all, size: *size as usize }
         }
         Agg::Filter { field, code } => {
             let ids: Vec<usize> = (0..docs.len()).filter(|&i| docs[i][field.id()].contains(code)).collect();
@@ -231,7 +231,8 @@ pub fn srs_to_lean(srs: &[SR], ranks: &Ranks) -> String {
             }
             SR::List(bs, _) => format!("L[{}]", buckets(bs, ranks, None)),
             SR::Filter(c, s) => format!("F[{c}:{}]", srs_to_lean(s, ranks)),
-            SR::Comp { .. } => "N".into(),
+            SR::Comp { name, sources, all, size } => format!("L[{}]", all[..(*size).min(all.len())].iter()
+                .map(|(k, c, s)| format!("{}:{c}:{}", ranks.comp_code(name, sources, k), srs_to_lean(s, ranks))).collect::<Vec<_>>().join(";")),
         }
     }
     match srs.len() {
@@ -248,7 +249,7 @@ pub fn bucket_count_all(srs: &[SR]) -> u64 {
         SR::Terms { all, size, .. } => all[..(*size).min(all.len())].iter().map(|b| 1 + bucket_count_all(&b.2)).sum(),
         SR::List(bs, _) => bs.iter().map(|b| 1 + bucket_count_all(&b.2)).sum(),
         SR::Filter(_, s) => bucket_count_all(s),
-        SR::Comp { all, size } => all[..(*size).min(all.len())].iter().map(|b| 1 + bucket_count_all(&b.2)).sum(),
+        SR::Comp { all, size, .. } => all[..(*size).min(all.len())].iter().map(|b| 1 + bucket_count_all(&b.2)).sum(),
         _ => 0,
     }).sum()
 }
@@ -260,7 +261,7 @@ pub fn bucket_count(srs: &[SR]) -> u64 {
         SR::List(_, true) => 0,
         SR::List(bs, false) => bs.iter().map(|b| 1 + bucket_count(&b.2)).sum(),
         SR::Filter(_, s) => bucket_count(s),
-        SR::Comp { all, size } => all[..(*size).min(all.len())].iter().map(|b| 1 + bucket_count(&b.2)).sum(),
+        SR::Comp { all, size, .. } => all[..(*size).min(all.len())].iter().map(|b| 1 + bucket_count(&b.2)).sum(),
         _ => 0,
     }).sum()
 }
